@@ -5,6 +5,7 @@ import (
 	"encoding/json"
 	"io"
 	"net/http"
+	"sync/atomic"
 	"time"
 
 	"github.com/gorilla/websocket"
@@ -24,6 +25,16 @@ type graphqlWSConnection interface {
 	io.Closer
 }
 
+// graphqlWSSubscription is a subscription that was started on a connection and has not been
+// stopped yet.
+type graphqlWSSubscription struct {
+	SubscriptionSourceStream
+
+	// Set to 1 by the subscription's goroutine once its source stream has ended, just before the
+	// complete message is sent. From then on the client is free to reuse the id.
+	ended *int32
+}
+
 type graphqlWSHandler struct {
 	API        *API
 	Connection graphqlWSConnection
@@ -31,7 +42,7 @@ type graphqlWSHandler struct {
 	Logger     logrus.FieldLogger
 
 	cancelContext func()
-	subscriptions map[string]SubscriptionSourceStream
+	subscriptions map[string]graphqlWSSubscription
 	features      graphql.FeatureSet
 }
 
@@ -75,10 +86,16 @@ func (h *graphqlWSHandler) HandleStart(id string, query string, variables map[st
 		req.Document = doc
 
 		if graphql.IsSubscription(doc, operationName) {
-			if _, ok := h.subscriptions[id]; ok {
-				// if the subscription already exists, ignore this message. should we do something
-				// else though?
-				return
+			if existing, ok := h.subscriptions[id]; ok {
+				if atomic.LoadInt32(existing.ended) == 0 {
+					// if the subscription already exists, ignore this message. should we do something
+					// else though?
+					return
+				}
+				// the previous subscription with this id is complete because its source stream
+				// ended. release it so the id can be reused
+				existing.Stop()
+				delete(h.subscriptions, id)
 			}
 			if sourceStream, errs := graphql.Subscribe(req); len(errs) > 0 {
 				resp = &graphql.Response{
@@ -86,7 +103,7 @@ func (h *graphqlWSHandler) HandleStart(id string, query string, variables map[st
 				}
 			} else {
 				if h.subscriptions == nil {
-					h.subscriptions = map[string]SubscriptionSourceStream{}
+					h.subscriptions = map[string]graphqlWSSubscription{}
 				}
 				sourceStreamIn := sourceStream.(*SubscriptionSourceStream)
 				// Note we can't use the request context here, because the Go http package closes it
@@ -97,7 +114,11 @@ func (h *graphqlWSHandler) HandleStart(id string, query string, variables map[st
 					sourceStreamIn.Stop()
 					cancel()
 				}
-				h.subscriptions[id] = sourceStream
+				ended := new(int32)
+				h.subscriptions[id] = graphqlWSSubscription{
+					SubscriptionSourceStream: sourceStream,
+					ended:                    ended,
+				}
 				go func() {
 					if err := sourceStream.Run(ctx, func(event any) {
 						req := *req
@@ -108,6 +129,7 @@ func (h *graphqlWSHandler) HandleStart(id string, query string, variables map[st
 					}); err != nil && err != context.Canceled {
 						h.Logger.Error(errors.Wrap(err, "error running source stream"))
 					}
+					atomic.StoreInt32(ended, 1)
 					if err := h.Connection.SendComplete(context.Background(), id); err != nil {
 						h.Logger.Warn(errors.Wrap(err, "error sending graphql-ws complete"))
 					}
